@@ -281,6 +281,7 @@ func (c *SuperCfg) execPlan(bin string, p *Plan, tag string, timeout time.Durati
 		return nil, err.Error(), 2
 	}
 	cmd := c.workerCmd(bin, "exec", "-plan", pf, "-scratch", filepath.Join(dir, "s"))
+	cmd.Env = append(cmd.Env, "VSIM_TRACE=1")
 	var stdout, stderr bytes.Buffer
 	cmd.Stdout, cmd.Stderr = &stdout, &stderr
 	if err := cmd.Start(); err != nil {
